@@ -116,6 +116,74 @@ func c14Number(c *Ctx, k c14Case) {
 			c.Diverge("C14", api+"(value)", exact.Text('g', 30), got.Text('g', 30), "", k)
 		}
 	}
+	// every place an interface can sit: the dynamic type is decided by the flags alone
+	type named interface{}
+	typed := func(api, doc string, target any, pick func() any) {
+		var err error
+		c.Eval(1)
+		if p := protect(func() { _, err = json.Parse([]byte(doc), target, fl) }); p != "" || err != nil {
+			c.Diverge("C14", api, k.Want, fmt.Sprintf("err=%v %s", err, p), "", k)
+			return
+		}
+		v := pick()
+		if got := dynTypeName(v); got != k.Want {
+			c.Diverge("C14", api, k.Want+" for "+k.Num, got, "", k)
+			return
+		}
+		exact, _, _ := big.ParseFloat(k.Num, 10, 400, big.ToNearestEven)
+		if k.Want == "float64" {
+			f, _ := exact.Float64()
+			exact = new(big.Float).SetPrec(400).SetFloat64(f)
+		}
+		if got := numericValue(v); exact.Cmp(got) != 0 {
+			c.Diverge("C14", api+"(value)", exact.Text('g', 30), got.Text('g', 30), "", k)
+		}
+	}
+	{
+		var sl []any
+		typed("json.Parse([number] into []any)", "["+k.Num+"]", &sl, func() any { return sl[0] })
+		var ar [2]any
+		typed("json.Parse([1,number] into [2]any)", "[1,"+k.Num+"]", &ar, func() any { return ar[1] })
+		var m map[string]any
+		typed("json.Parse({\"k\":number} into map[string]any)", `{"k":`+k.Num+`}`, &m, func() any { return m["k"] })
+		var st struct{ F any }
+		typed("json.Parse({\"F\":number} into struct{F any})", `{"F":`+k.Num+`}`, &st, func() any { return st.F })
+		var pp *any
+		typed("json.Parse(number into **any)", k.Num, &pp, func() any { return *pp })
+		var n named
+		typed("json.Parse(number into a named empty interface type)", k.Num, &n, func() any { return n })
+		var ns []named
+		typed("json.Parse([number] into a slice of a named empty interface type)", "["+k.Num+"]", &ns, func() any { return ns[0] })
+		var nm map[string]named
+		typed("json.Parse({\"k\":number} into a map of a named empty interface type)", `{"k":`+k.Num+`}`, &nm, func() any { return nm["k"] })
+		var nst struct{ F named }
+		typed("json.Parse({\"F\":number} into struct{F named})", `{"F":`+k.Num+`}`, &nst, func() any { return nst.F })
+		// an interface that holds a pointer before the decode: the value goes where the pointer points
+		inner := new(any)
+		var held any = inner
+		typed("json.Parse(number into an interface holding *any)", k.Num, &held, func() any {
+			if *inner == nil { // wherever the value landed: only its dynamic type is at stake here
+				return held
+			}
+			return *inner
+		})
+		innerS := &struct{ F any }{}
+		var heldS any = innerS
+		typed("json.Parse({\"F\":number} into an interface holding *struct{F any})", `{"F":`+k.Num+`}`, &heldS, func() any {
+			if m, ok := heldS.(map[string]any); ok {
+				return m["F"]
+			}
+			return innerS.F
+		})
+		innerN := new(named)
+		var heldN named = innerN
+		typed("json.Parse(number into a named interface holding a pointer)", k.Num, &heldN, func() any {
+			if *innerN == nil {
+				return heldN
+			}
+			return *innerN
+		})
+	}
 	check("json.Parse(number into any)", k.Num, func(x any) any { return x })
 	check("json.Parse([number] into any)", "["+k.Num+"]", func(x any) any { return x.([]any)[0] })
 	check("json.Parse({\"k\":number} into any)", `{"k":`+k.Num+`}`, func(x any) any { return x.(map[string]any)["k"] })
